@@ -1563,6 +1563,19 @@ def rule_prescan_exhaustive(check, rule):
 # ---------------------------------------------------------------------------
 # C05.R9c -- the re-evaluation of a recorded call against the late taints
 
+def _none_test(test):
+    """`X is None` / `X is not None` / `not X is None` / `not (X is not None)` -> (text of X, True when it says "X is None")"""
+    pol = True
+    while isinstance(test, ast.UnaryOp) and isinstance(test.op, ast.Not):
+        pol = not pol
+        test = test.operand
+    if isinstance(test, ast.Compare) and len(test.ops) == 1 and isinstance(test.ops[0], (ast.Is, ast.IsNot)) \
+            and isinstance(test.comparators[0], ast.Constant) and test.comparators[0].value is None:
+        says_none = isinstance(test.ops[0], ast.Is)
+        return norm(test.left), (says_none if pol else not says_none)
+    return None
+
+
 def rule_recheck_table(check, rule):
     """C05.R9c: what the re-evaluation does to a recorded call.  For each star family X (the call's `varargs` / `varkwargs` marker):
     X is replaced by its untainted view exactly when it *is* one of the markers tainted late (`any(X is m for m in late_tainted)`,
@@ -1670,9 +1683,10 @@ def rule_recheck_table(check, rule):
                     if not apps:
                         continue
                     if isinstance(s_, ast.If):
-                        txt = norm(s_.test)
                         in_body = any(c in list(ast.walk(b2)) for c in apps for b2 in s_.body)
-                        if ('parent is not None' in txt and in_body) or ('parent is None' in txt and not in_body):
+                        nt = _none_test(s_.test)
+                        # (subject, True when the test says "is None")
+                        if nt is not None and nt[0].endswith('.parent') and ((not nt[1] and in_body) or (nt[1] and not in_body)):
                             ok = True
                     else:
                         ok = True
